@@ -199,6 +199,25 @@ def build(cfg, start, prods, smart, skip=_NO_SKIP_ARG):
     return "ok", p
 
 
+def build_from_dict(cfg, start, productions, smart):
+    """Real constructor on a productions dict OBJECT owned by the caller (for construction sequences on
+    one dict object that is edited in place).  Same result convention as build()."""
+    try:
+        p = impl.LLParser(cfg.tokenizer_str, productions=productions, synonyms=cfg.synonyms,
+                          keywords=cfg.keywords, start_symbol_name=start, smart_factorization=smart)
+    except impl.GrammarIsRecursive as e:
+        return "recursive", e
+    except impl.GrammarError as e:
+        return "grammar-error", e
+    except AssertionError as e:
+        return "assertion", e
+    except Abort as e:
+        return "abort:" + e.why, None
+    except Exception as e:  # noqa
+        return "raised:" + type(e).__name__, e
+    return "ok", p
+
+
 def parse(parser, cfg, toks, bound=None, step_budget=STEP_BUDGET, start_symbol=None, raw_text=None):
     """Real parse of the text made of ``toks`` under the monitor; ``start_symbol`` is handed over as the
     public ``start_symbol_name`` argument of parse (None: the constructor's start symbol).
